@@ -717,6 +717,7 @@ func typedAPI(repM, repU *Report, wM, wU *CaseWriter, r *rand.Rand, thorough boo
 	apiHookKeyOrder(repM, repU, r)
 	apiInterleavedTaps(repM)
 	apiCtxBuilders(repM, repU)
+	apiRound8More(repM, repU)
 	apiSkipAnything(repU)
 	apiRound8Typed(repM, repU)
 	apiUnmarshalSinkReuse(repU)
@@ -3169,6 +3170,138 @@ func apiSkipAnything(repU *Report) {
 			what := fmt.Sprintf("an unknown member holding [%s]: %v (A=%d); the same under a deprecated name in strict mode: %v (Keep=%d); both must be skipped", descTokens(val), e, v.A, e2, w.Keep)
 			repU.violate("C16", "unknown-field-not-skipped", what, "stream=["+descTokens(ts)+"]")
 			repU.violate("C05", "conforming-rejected", what, "stream=["+descTokens(ts)+"]")
+		}
+	}
+}
+
+// ---- round 8, third part ----
+func apiRound8More(repM, repU *Report) {
+	// values chained through one Encode sink by Sink.Marshal, decoded and unmarshalled one by one (C01 through this API)
+	{
+		type rec struct {
+			A int
+			B []string
+		}
+		vals := []rec{{1, []string{"x"}}, {2, nil}, {3, []string{"y", "z"}}}
+		var buf bytes.Buffer
+		sink := sb.Encode(&buf)
+		var err error
+		for _, v := range vals {
+			if sink, err = sink.Marshal(v); err != nil {
+				break
+			}
+		}
+		dec := sb.Decode(&buf)
+		ok := err == nil
+		var got []rec
+		for i := 0; ok && i < len(vals); i++ {
+			var r rec
+			if e := guard(func() error { return sb.Copy(dec, sb.Unmarshal(&r)) }); e != nil {
+				ok = false
+			}
+			got = append(got, r)
+		}
+		repU.Evaluations++
+		repU.count("api:sink-marshal-roundtrip")
+		if !ok || !reflect.DeepEqual(got, vals) {
+			repU.violate("C01", "roundtrip-bytes", fmt.Sprintf("three values chained through Encode(w).Marshal and read back one by one: %v (%v), expected %v", got, err, vals), "Sink.Marshal chain")
+		}
+	}
+	// interface-typed map keys that are byte arrays: the element path carries the key as the map holds it
+	{
+		m := map[any]int{[3]byte{1, 2, 3}: 1, "s": 2, [2]byte{9, 9}: 3}
+		ts, err := marshalTokens(m, nil)
+		if err == nil {
+			utapsCase(repU, reflect.TypeOf(m), ts, false, "map[any]int with byte-array keys")
+			var seen []any
+			back := map[any]int{}
+			e := guard(func() error {
+				return copyBudget(tokensFrom(ts), sb.TapUnmarshal(sb.Ctx{}, &back, func(c sb.Ctx, _ sb.Token, _ reflect.Value) {
+					if len(c.Path) == 1 {
+						seen = append(seen, c.Path[0])
+					}
+				}))
+			})
+			repU.Evaluations++
+			bad := e != nil
+			for _, k := range seen {
+				if _, ok := back[k]; !ok && !bad {
+					func() {
+						defer func() {
+							if recover() != nil {
+								bad = true
+							}
+						}()
+						_, ok = back[k]
+					}()
+					bad = true
+				}
+			}
+			if bad {
+				repU.violate("C17", "unmarshal-tap-path", fmt.Sprintf("the path elements reported for the entries of a map[any]int with byte-array keys (%v) are not keys of the decoded map %v (%v)", seen, back, e), "map[any]int with byte-array keys")
+			}
+		}
+	}
+}
+
+// a compound whose children were replaced after the tree was built hashes like the stream it now iterates to
+func apiFillHashAfterEdit(rep *Report) {
+	a := []sb.Token{tokK(sb.KindArray), tokI(1), tokK(sb.KindArray), tokI(2), tokK(sb.KindArrayEnd), tokK(sb.KindArrayEnd)}
+	b := []sb.Token{tokK(sb.KindArray), tokS("x"), tokS("y"), tokI(3), tokK(sb.KindArrayEnd)}
+	for _, f := range []hashFn{hashFns[0], hashFns[2]} {
+		ta, e1 := sb.TreeFromStream(tokensFrom(a))
+		tb, e2 := sb.TreeFromStream(tokensFrom(b))
+		if e1 != nil || e2 != nil {
+			return
+		}
+		_ = ta.FillHash(f.new)
+		inner := ta.Subs[1]
+		inner.Subs = tb.Subs // the inner array now holds b's children (and b's end marker)
+		var clear func(t *sb.Tree)
+		clear = func(t *sb.Tree) {
+			t.Hash = nil
+			for _, s := range t.Subs {
+				clear(s)
+			}
+		}
+		clear(ta)
+		now, _ := collect(ta.Iter())
+		e := guard(func() error { return ta.FillHash(f.new) })
+		want, _ := sinkHash(now, f)
+		rep.Evaluations++
+		rep.count("api:fillhash-after-edit")
+		if e != nil || !bytes.Equal(ta.Hash, want) {
+			what := fmt.Sprintf("a tree whose inner compound received the children of another tree iterates to [%s]; FillHash(%s) gives %x (%v), the stream hashes to %x", descTokens(now), f.name, ta.Hash, e, want)
+			rep.violate("C09", "fillhash-differs", what, "tree edited, then re-hashed")
+			rep.violate("C12", "node-hash-wrong", what, "tree edited, then re-hashed")
+		}
+	}
+}
+
+// the streams handed to ConcatStreams are advanced in place: a consumer that stops early and the owner reading on from
+// the same stream value see every token exactly once between them
+func apiConcatAdvancesInPlace(rep *Report) {
+	first := []sb.Token{tokI(1), tokI(2)}
+	body := []sb.Token{tokS("a"), tokS("b"), tokS("c"), tokS("d"), tokS("e")}
+	for stop := len(first); stop <= len(first)+len(body); stop++ { // (the consumer has at least finished the first stream)
+		last := tokensFrom(body)
+		cs := sb.ConcatStreams(tokensFrom(first), last)
+		var got []sb.Token
+		for i := 0; i < stop; i++ {
+			var t sb.Token
+			if err := cs.Next(&t); err != nil || t.Invalid() {
+				break
+			}
+			got = append(got, t)
+		}
+		rest, _ := collect(last)
+		all := append(append([]sb.Token{}, got...), rest...)
+		want := append(append([]sb.Token{}, first...), body...)
+		rep.Evaluations++
+		rep.count("api:concat-in-place")
+		if !tokensExactEq(all, want) {
+			rep.violate("C14", "delivery", fmt.Sprintf("a consumer took %d tokens from ConcatStreams(first, last), the owner then read on from `last`: together [%s], expected each token once: [%s]", stop, descTokens(all), descTokens(want)), "ConcatStreams then the last stream directly")
+			rep.violate("C13", "combinator-not-transparent", fmt.Sprintf("a consumer took %d tokens from ConcatStreams(first, last), the owner then read on from `last`: together [%s]", stop, descTokens(all)), "ConcatStreams then the last stream directly")
 		}
 	}
 }
